@@ -59,8 +59,10 @@ claim("C18", "other", "fresh-and-non-nil provenance analysis with per-function s
 claim("C19", "other", "one-variable interval abstract interpretation (|buf|-cap) with transfer functions derived from mapset's bodies; store-shape and control-dependence rules",
       "Decides: 'Len never exceeds the buffer size' as an inductive invariant of every Counter method, found by abstract interpretation of |buf| - cap with guards, joins and "
       "widening (it found the single-pass halving defect, repaired in /repo 5fe64df); p is only ever set to MaxUint64 or shifted right and Count is Len x 2^LeadingZeros64(p), "
-      "so the scale never decreases before Reset; Reset empties the buffer together with p := MaxUint64; removals and halvings are control-dependent on p < MaxUint64 or "
-      "Len >= cap, so below capacity the buffer is the exact set. Does NOT decide unbiasedness (a statement about a probability distribution) or the p = 0 corner.",
+      "so the scale never decreases before Reset; Reset empties the buffer together with p := MaxUint64 (both directions); removals and halvings are control-dependent on "
+      "p < MaxUint64 or Len >= cap, so below capacity the buffer is the exact set; and two structural necessary conditions of unbiasedness: every path through Add re-decides "
+      "the value's membership (removes or adds it), and every removal pass is followed by a halving of p before the next pass or return. Does NOT decide unbiasedness itself "
+      "(a statement about a probability distribution) or the p = 0 corner.",
       BASE_NOTE + " Assumes NewCounter is called with size >= 1.",
       "DESIGN.md section 3, C19")
 claim("C20", "other", "linear-form + congruence reasoning over induction variables for unsafe word accesses; closure/dominance rules for Trunc; value-set rule for CompareNatural",
